@@ -66,6 +66,18 @@ CHECKS = {
    text="Proof of the queue (heap model): newq, enq, deq, head, emit are verified against ghost fields (node array, offset, length, value list) tied to the linked structure by a quantified representation invariant (link order, distinctness, allocation, not pooled, cell contents = abstract list): enq appends at the back, deq removes the front, head/emit agree with emptiness. Local proof + channel axioms of the pump: loop invariant rcvd(in) = sent(eg) followed by the queue contents, every exit flushes the queue, drains the send side, closes the receive side once and never closes a channel already observed closed; every iteration offers the receive arm and observes cancellation. Two genuine defects were found by these obligations and repaired (see KNOWN_FINDINGS.json).",
    note=PIPE_NOTE + " sync.Pool is modelled by its contract (Get returns a new node or a pooled one that is not in use). 'A send never waits' is a liveness statement and is not decided; the flush sends after cancel are blocking by design (delivery) and exempt from the slot-token condition. A close by the sender racing with the pump's own close on cancel is outside the goroutine-local model.",
    tech="contract-based deductive verification: ghost fields + quantified representation invariant over a heap model; goroutine-local trace invariant for the pump", ref="6/C08"),
+ "C03": dict(
+   text="Proof over the reflect layout axiomatisation: hseq.unfold is verified (loop invariant, recursive call by contract) to produce exactly flatten(fields, offset, acc) - the depth-first listing with embedded structs (by value or pointer) followed by their fields, IDs equal to positions, root offsets accumulated along embedding; New lists all fields or the first entry of each requested name in the requested order (quantified loop invariant), New1..9 the first entry of each requested type, ForType/ForName/ForNameMaybe return the first match or fail loudly (panic exactly when there is none), FieldKey prefers the first part of the hseq tag, FMap/FMap1..9 hand the i-th entry to the i-th function. A genuine defect (type match by printed name) was found and repaired.",
+   note=REFL + "that root offset + field offset is the real byte offset for entries not crossing a pointer is the definition of flatten/validloc (Go's layout rule that offsets of nested value structs add), not derived from the compiler; termination of the recursion on types is not proved.",
+   tech="contract-based deductive verification: reflect modelled as an algebraic datatype, recursive spec function, loop invariants, specified panics", ref="6/C03"),
+ "C01": dict(
+   text="Proof over the reflect/unsafe axiomatisation: the unsafe access of lens.Get/Put/Gett/Putt is a typed field access fget/fput on the struct value under the safety obligation validloc (the offset is the location of a field of exactly the accessed type, reached through plain and value-embedded structs only), which is the object invariant of *lens; Get/Put are verified against the Lens contract of C04 (reads the focus; *s becomes put(*s,a), same pointer, nothing else modified), Gett/Putt likewise for *S and panic otherwise; NewLens/NewReflector establish the invariant (focusable is verified against validloc with a loop invariant and a recursive call) and return a lens whose offset is that of the entry; ForProduct1..9/ForSpectrum1..9 return, positionally, lenses on the first field of each requested type or on the named fields. hseq's listing functions are re-verified under this property. GetPut/PutGet/PutPut and non-interference are the record axioms of fget/fput.",
+   note=REFL + "unsafe: *(*A)(unsafe.Pointer(uintptr(p)+o)) reads/writes exactly the field of type A at offset o when (o,A) is a valid field location, distinct fields occupy disjoint bytes, the GC does not move the struct (record axioms of fget/fput are assumed, they are Go's memory layout); offset arithmetic overflow is not checked.",
+   tech="contract-based deductive verification: unsafe access pattern as typed field update with a validity obligation, object invariant, reflect datatype", ref="6/C01"),
+ "C02": dict(
+   text="Proof as C01, read for its else-panics half: every normal return of NewLens/NewReflector/ForProductN/ForSpectrumN yields an optic whose location is a valid field location of identical type (object invariant checked at creation), all other requests panic; Gett/Putt panic, before touching memory, unless the argument's dynamic type is *S. Genuine defects found by these obligations: derivation accepted fields behind embedded pointers, pointer containers and look-alike focus types (repaired), and attr[0:N] reading names beyond len(attr) (16 call sites, recorded as known findings).",
+   note=REFL + "as C01.", cat="other",
+   tech="contract-based deductive verification: specified panics, object invariant at derivation, slice-bounds obligations", ref="6/C02"),
 }
 
 NA_REASON = "check not built yet in this session (engine under construction; build order in DESIGN.md section 12)"
